@@ -49,7 +49,16 @@ def d_vk(r, r0, L0):
     return 0.17253 * (L0 / r0) ** (5. / 3) * (1 - t)
 
 
-def build(sc, c, threads=1, r0s=None, wavel=None):
+# further physical bindings of the same (scale-free) lattice: (metres per half lattice unit, outer scales).  The Def layer is a
+# bag of atoms, so every binding must give sum coef * D_vk(sqrt(q) * hu): Kolmogorov-like regimes (L0 thousands of sub-aperture
+# diameters) and outer scales comparable to one sub-aperture are where a spliced approximation of the structure function shows.
+PHYS_FAMILIES = [dict(hu=0.025, l0s=[2000.0, 30.0]), dict(hu=0.0625, l0s=[1.0e5, 1.0e4]), dict(hu=0.125, l0s=[1.5, 4.0]),
+                 dict(hu=0.0125, l0s=[300.0, 1.0e5])]
+
+
+def build(sc, c, threads=1, r0s=None, wavel=None, hu=None, l0s=None, ngs_alt=0.0):
+    HU = hu or globals()["HU"]
+    L0S = l0s or globals()["L0S"]
     nw = c["nw"]
     masks = []
     for i, cells in enumerate(c["masks"]):
@@ -61,7 +70,7 @@ def build(sc, c, threads=1, r0s=None, wavel=None):
     tel = c["n"][0] * dias[0]
     nl = len(c["heights"])
     alts = np.array([h * H1 for h in c["heights"]], float)
-    gs_alt = np.array([2 * H1 if lg else 0.0 for lg in c["lgs"]])
+    gs_alt = np.array([2 * H1 if lg else ngs_alt for lg in c["lgs"]])
     gs_pos = np.array([[o[0] * HU / H1 * 180 * 3600 / np.pi, o[1] * HU / H1 * 180 * 3600 / np.pi] for o in c["off"]])
     r0s = (r0s or R0S)[:nl] if len(c["heights"]) > 1 or c["heights"][0] == 0 else (r0s or R0S)[:nl]
     cm = sc.CovarianceMatrix(nw, masks, tel, np.array(dias), gs_alt, gs_pos, np.array((wavel or WAVEL)[:nw]),
@@ -79,7 +88,8 @@ def layout(c):
     return rows
 
 
-def expected(c, value_of_atom, r0s=None, wavel=None):
+def expected(c, value_of_atom, r0s=None, wavel=None, hu=None):
+    HU = hu or globals()["HU"]
     rows = layout(c)
     dim = c["dim"]
     wl = wavel or WAVEL
@@ -153,6 +163,25 @@ def check_config(sc, c, do_mp=False, do_scaling=False):
     if w.min() < -2e-5 * w.max():
         bad.append(("covariance:not-positive-semidefinite", dict(min_eig_rel=info["min_eig_rel"])))
     if do_scaling and not bad:
+        # the same lattice bound to other physical scales (see PHYS_FAMILIES)
+        for fam in PHYS_FAMILIES:
+            pf = np.asarray(build(sc, c, hu=fam["hu"], l0s=fam["l0s"]).make_covariance_matrix(), float)
+            ef, _ = expected(c, lambda l, q: float(d_vk(math.sqrt(q) * fam["hu"], R0S[l - 1], fam["l0s"][l - 1])), hu=fam["hu"])
+            if not np.all(np.isfinite(pf)) or np.abs(pf - ef).max() > 3e-5 * np.abs(ef).max():
+                r, cc = np.unravel_index(int(np.argmax(np.where(np.isfinite(pf), np.abs(pf - ef), np.inf))), pf.shape)
+                bad.append(("covariance:von-karman-values:physical-family", dict(family=fam, row=int(r), col=int(cc), got=float(pf[r, cc]),
+                                                                                 expected=float(ef[r, cc]))))
+                break
+            wf = np.linalg.eigvalsh((pf + pf.T) / 2)
+            if wf.min() < -2e-5 * wf.max():
+                bad.append(("covariance:not-positive-semidefinite:physical-family", dict(family=fam, min_eig_rel=float(wf.min() / wf.max()))))
+                break
+        # a natural guide star described by its literal altitude (infinity) is the same star as the altitude-0 convention
+        if not all(c["lgs"]):
+            pinf = np.asarray(build(sc, c, ngs_alt=np.inf).make_covariance_matrix(), float)
+            if not np.array_equal(pinf, phys):
+                bad.append(("covariance:infinite-guide-star-altitude", dict(non_finite=int((~np.isfinite(pinf)).sum()),
+                                                                           max_diff=float(np.nanmax(np.abs(pinf - phys))) if np.isfinite(pinf).any() else None)))
         # r0^(-5/3) and wavelength-product scaling (exact statements about the returned numbers)
         r0b = [r * 2 for r in R0S]
         p2 = np.asarray(build(sc, c, r0s=r0b).make_covariance_matrix(), float)
